@@ -185,6 +185,7 @@ func RuleSeq(p *core.Prog, r *core.Report) {
 	// returns
 	var final *ssa.Return
 	nEarly := 0
+	nRetPairs, badPairs := 0, 0
 	for _, b := range f.Blocks {
 		ret, ok := b.Instrs[len(b.Instrs)-1].(*ssa.Return)
 		if !ok || b == f.Recover {
@@ -207,7 +208,18 @@ func RuleSeq(p *core.Prog, r *core.Report) {
 				}
 			}
 		}
-		// what is returned: the two accumulators
+		// what is returned: the two accumulators, each in its own place (the deferred bookkeeping works on the
+		// cells; returning the error accumulator twice hands the caller "warnings" that carry the errors)
+		if len(ret.Results) == 2 {
+			c0, c1 := cellOf(unspill(ret, 0)), cellOf(unspill(ret, 1))
+			if c0 != nil && c1 != nil {
+				nRetPairs++
+				if c0 != errsCell || c1 != warnCell {
+					r.Bad(rule, "return:accumulators", p.Pos(posOf(ret, f)), "a return does not hand back (errors, warnings) in that order from the two accumulators: the separately returned warnings are not the warnings of the main result")
+					badPairs++
+				}
+			}
+		}
 		switch {
 		case invalidDoc:
 			r.OK(rule, "return:not-a-document", p.Pos(posOf(ret, f)), "returns at once when the argument is not a loaded document")
@@ -231,6 +243,9 @@ func RuleSeq(p *core.Prog, r *core.Report) {
 	}
 	if final == nil {
 		r.Bad(rule, "return:final", p.Pos(f.Pos()), "no return is dominated by all rule calls")
+	}
+	if badPairs == 0 {
+		r.OK(rule, "return:accumulators", p.Pos(f.Pos()), fmt.Sprintf("each of the %d returns that hand back two results returns the error accumulator first and the warning accumulator second", nRetPairs))
 	}
 	r.Count("spec_early_returns", nEarly)
 	r.Floor("spec_early_returns", 3)
